@@ -384,6 +384,10 @@ fn check_batch(l: &Layout, b: &Built, from: usize, times: usize) {
 pub fn exec_harness(l: Layout, calls: [u8; 2], end: u8, batch_runs: usize) {
     reset_log();
     rayon::MODEL_REVERSE.store(any_bool(), std::sync::atomic::Ordering::SeqCst);
+    // pool size: a solver variable (only code that asks rayon for it depends on it)
+    let nthreads = any_usize();
+    assume(nthreads >= 1 && nthreads <= 16);
+    rayon::MODEL_NUM_THREADS.store(nthreads, std::sync::atomic::Ordering::SeqCst);
     let mut b = build(&l, batch_runs);
     let mut w = World::empty();
 
